@@ -260,28 +260,18 @@ Print Assumptions C13_class_defs.
    If the code changes so that a tie no longer holds, this file no longer checks. *)
 Require Verif.Tie.Gem.
 Require Verif.Tie.Loops.Gem.
-Definition C13_tie_gem_compareInt := Verif.Tie.Gem.tie_gem_compareInt.
-Print Assumptions C13_tie_gem_compareInt.
-Definition C13_tie_gem_compareSegments := Verif.Tie.Gem.tie_gem_compareSegments.
-Print Assumptions C13_tie_gem_compareSegments.
-Definition C13_tie_loops_gem_removeTrailingZeros_exact := Verif.Tie.Loops.Gem.tie_loops_gem_removeTrailingZeros_exact.
-Print Assumptions C13_tie_loops_gem_removeTrailingZeros_exact.
-Definition C13_tie_loops_gem_removeTrailingZeros := Verif.Tie.Loops.Gem.tie_loops_gem_removeTrailingZeros.
-Print Assumptions C13_tie_loops_gem_removeTrailingZeros.
-Definition C13_tie_removeTrailingZeros_total_model := Verif.Tie.Loops.Gem.removeTrailingZeros_total_model.
-Print Assumptions C13_tie_removeTrailingZeros_total_model.
-Definition C13_tie_loops_gem_split_exact := Verif.Tie.Loops.Gem.tie_loops_gem_split_exact.
-Print Assumptions C13_tie_loops_gem_split_exact.
-Definition C13_tie_loops_gem_split := Verif.Tie.Loops.Gem.tie_loops_gem_split.
-Print Assumptions C13_tie_loops_gem_split.
-Definition C13_tie_Version_splitNumericAndPrerelease_total_model := Verif.Tie.Loops.Gem.Version_splitNumericAndPrerelease_total_model.
-Print Assumptions C13_tie_Version_splitNumericAndPrerelease_total_model.
-Definition C13_tie_loops_gem_compareSegmentArrays := Verif.Tie.Loops.Gem.tie_loops_gem_compareSegmentArrays.
-Print Assumptions C13_tie_loops_gem_compareSegmentArrays.
-Definition C13_tie_compareSegmentArrays_total_model := Verif.Tie.Loops.Gem.compareSegmentArrays_total_model.
-Print Assumptions C13_tie_compareSegmentArrays_total_model.
-Definition C13_tie_loops_gem_compare := Verif.Tie.Loops.Gem.tie_loops_gem_compare.
-Print Assumptions C13_tie_loops_gem_compare.
-Definition C13_tie_Version_Compare_total_model := Verif.Tie.Loops.Gem.Version_Compare_total_model.
-Print Assumptions C13_tie_Version_Compare_total_model.
+Definition C13_tie_gem_compareInt := @Verif.Tie.Gem.tie_gem_compareInt.
+Definition C13_tie_gem_compareSegments := @Verif.Tie.Gem.tie_gem_compareSegments.
+Definition C13_tie_loops_gem_removeTrailingZeros_exact := @Verif.Tie.Loops.Gem.tie_loops_gem_removeTrailingZeros_exact.
+Definition C13_tie_loops_gem_removeTrailingZeros := @Verif.Tie.Loops.Gem.tie_loops_gem_removeTrailingZeros.
+Definition C13_tie_removeTrailingZeros_total_model := @Verif.Tie.Loops.Gem.removeTrailingZeros_total_model.
+Definition C13_tie_loops_gem_split_exact := @Verif.Tie.Loops.Gem.tie_loops_gem_split_exact.
+Definition C13_tie_loops_gem_split := @Verif.Tie.Loops.Gem.tie_loops_gem_split.
+Definition C13_tie_Version_splitNumericAndPrerelease_total_model := @Verif.Tie.Loops.Gem.Version_splitNumericAndPrerelease_total_model.
+Definition C13_tie_loops_gem_compareSegmentArrays := @Verif.Tie.Loops.Gem.tie_loops_gem_compareSegmentArrays.
+Definition C13_tie_compareSegmentArrays_total_model := @Verif.Tie.Loops.Gem.compareSegmentArrays_total_model.
+Definition C13_tie_loops_gem_compare := @Verif.Tie.Loops.Gem.tie_loops_gem_compare.
+Definition C13_tie_Version_Compare_total_model := @Verif.Tie.Loops.Gem.Version_Compare_total_model.
+Definition C13_ties_all := (C13_tie_Version_Compare_total_model, (C13_tie_Version_splitNumericAndPrerelease_total_model, (C13_tie_compareSegmentArrays_total_model, (C13_tie_gem_compareInt, (C13_tie_gem_compareSegments, (C13_tie_loops_gem_compare, (C13_tie_loops_gem_compareSegmentArrays, (C13_tie_loops_gem_removeTrailingZeros, (C13_tie_loops_gem_removeTrailingZeros_exact, (C13_tie_loops_gem_split, (C13_tie_loops_gem_split_exact, C13_tie_removeTrailingZeros_total_model))))))))))).
+Print Assumptions C13_ties_all.
 (* ====== ties to the source: END ====== *)
